@@ -55,6 +55,8 @@ def me2_drop_feeders(ctx, rep):
         mets = [a for a in args if a[0] == "agg" and a[1].endswith("Option::Some") and any(st[0] == "field" and st[2] == A.f_metrics for st in subterms(a))]
         if dispatch_site is not None and s.key() == dispatch_site.key():
             continue
+        if dispatch_site is not None and ctx.prog.callee_body(dispatch_site) is not None and ctx.prog.callee_body(dispatch_site).path == s.body.path:
+            continue  # the channel constructor call inside the helper that builds the dispatch queue
         if not mets:
             continue
         n += 1
@@ -292,7 +294,6 @@ def me9_one_metrics_object(ctx, rep):
     rep.check(fresh, R, "metrics-created-per-store", ctx.where(b, bb, si), "store.metrics := %s created in the constructor" % term_str(mt), "store.metrics := %s" % term_str(mt))
     cb, hits, _t = _dispatch_channel_site(ctx)
     if len(hits) == 1:
-        s = hits[0]
-        args = [bp.arg_term(s.bb, i) for i in range(len(s.term["args"]))]
-        same = any(a[0] == "agg" and a[1].endswith("Option::Some") and strip_clone(a[2][0]) == mt for a in args)
-        rep.check(same, R, "queue-counts-into-the-same-object", s.where, "the dispatch queue gets a clone of the same Arc", "the dispatch queue's metrics are %s" % [term_str(a) for a in args])
+        from rules.queue import _metrics_given_to_queue
+        same, mt2, args = _metrics_given_to_queue(ctx, hits[0])
+        rep.check(same, R, "queue-counts-into-the-same-object", hits[0].where, "the dispatch queue gets a clone of the same Arc", "the dispatch queue's metrics are %s" % [term_str(a) for a in args])
